@@ -84,13 +84,33 @@ def main():
                                                                   'source': 'atheris'})
                 stats.violations.append(dict(v, replay=path))
                 flush()
-        if stats.cases % 100 == 0 or time.time()-t_flush[0] > 5:
+        if stats.cases % 10 == 0 or time.time()-t_flush[0] > 2:
             t_flush[0] = time.time()
             flush()
 
     flush()
     corpus = os.path.join(os.environ.get('XDG_CACHE_HOME', '/tmp'), f'corpus_{args.check}_{args.seed}')
     os.makedirs(corpus, exist_ok=True)
+    # Starting corpus: libFuzzer starts from tiny inputs, which Hypothesis rejects as too short for the larger strategies
+    # (no instrumented code is reached, so there is no coverage signal to grow from). A few buffers of pseudo-random
+    # bytes (fixed by the seed) that Hypothesis accepts are written to the corpus first.
+    import random
+    rng = random.Random(args.seed)
+    n_seeded = 0
+    for k in range(200):
+        if n_seeded >= 12:
+            break
+        buf = rng.randbytes(rng.choice([256, 1024, 3000]))
+        try:
+            canon = body.hypothesis.fuzz_one_input(buf)
+        except Exception:  # noqa  (violations are recorded in stats by body itself)
+            canon = None
+        if canon is not None:
+            with open(os.path.join(corpus, f'seed_{k:03d}'), 'wb') as fp:
+                fp.write(bytes(canon))
+            n_seeded += 1
+    stats.extra['atheris_corpus_seeds'] = n_seeded
+    flush()
     atheris.Setup([sys.argv[0], f'-runs={args.runs}', f'-seed={args.seed}', '-max_len=4096', '-verbosity=0',
                    '-print_final_stats=0', corpus], body.hypothesis.fuzz_one_input)
     try:
